@@ -4,7 +4,7 @@ from hypothesis import strategies as st
 from vlib import hyp, fsgen, core, tool, run as vrun, e4ref, corrupt, rc, rcheck, build, jbd2
 LEVEL = 'fault_enumeration'
 TYPES = ['sb', 'gd', 'bbitmap', 'ibitmap', 'inode', 'inode', 'extent', 'dirleaf', 'dirleaf', 'dx', 'xattr', 'jsb']
-HISTORY = ['none', 'tune2fs -U random', 'tune2fs -O ^metadata_csum_seed', 'tune2fs -O metadata_csum_seed -U time', 'resize2fs grow', 'e2fsck -fyD', 'debugfs writes', 'debugfs journal transaction', 'tune2fs -O ^metadata_csum;metadata_csum', 'tune2fs -I 512']
+HISTORY = ['none', 'tune2fs -U random', 'tune2fs -O ^metadata_csum_seed', 'tune2fs -O metadata_csum_seed -U time', 'resize2fs grow', 'e2fsck -fyD', 'debugfs writes', 'debugfs journal transaction', 'tune2fs -O ^metadata_csum;metadata_csum', 'tune2fs -I 512', 'resize2fs shrink', 'resize2fs -M', 'resize2fs shrink']
 CSUM_CONFIGS = [c['name'] for c in fsgen.CONFIGS if '^metadata_csum' not in c['features'] and c['fstype'] == 'ext4']
 RULE = ('three generated searches. (a) rapidcheck: (primitive in {crc32c_le, crc16, crc32_be}, seed, alignment 0-15, length 0-70000, content) -> library value == bitwise definition, and crc(a||b) == crc(crc(a), b). '
         '(b) Hypothesis: metadata_csum configuration x population x producer history out of %s -> the independent checker (own crc32c/crc16, own seeds, covered ranges from the format) finds no checksum that does not verify, incl. journal superblock / descriptor / commit / tag checksums after a debugfs journal write. '
@@ -176,7 +176,10 @@ def body_b(case, env):
     tpl = hyp.template(env, case['cfg'], case['recipe'])
     if tpl is None: return (None, fp, False, None, classes + ['skip:template'])
     img = hyp.fresh_copy(env, tpl, 'c14b.img')
-    if case['extras']: fsgen.extras_apply(tp, img, case['extras'], env['blobs'], bs)
+    extras = [tuple(x) for x in case['extras']]
+    if any(HISTORY[hi].startswith('resize2fs shrink') or HISTORY[hi].endswith('-M') for hi in case['hist']) and not any(k % fsgen.NKINDS == 7 for k, a, b in extras):
+        extras.append((7, sum(case['hist']) * 37, 44))     # a shrink only renumbers inodes when the removed groups hold some: fill the inode tables (directories in every group, some emptied again)
+    if extras: fsgen.extras_apply(tp, img, extras, env['blobs'], bs)
     done = []; rewrote = False
     for hi in case['hist']:
         h = HISTORY[hi]; classes.append('b:hist:' + h)
@@ -189,6 +192,15 @@ def body_b(case, env):
                 if 'e2fsck -f' in r.out: tp.fsck(img, '-fy')
         elif h == 'resize2fs grow':
             sb = tool.sb_fields(img); r = vrun.run([tp.resize2fs, img, str(sb['nblocks'] + sb['bpg'] * 2 + 77)], merge=True, cpu=300); done.append('resize2fs -> %s' % r.rc); rewrote = rewrote or r.rc == 0
+        elif h in ('resize2fs shrink', 'resize2fs -M'):
+            # shrinking renumbers the inodes of the removed groups: every checksum seeded with an inode number (directory blocks, extent blocks, inode, EA inodes) has to be rewritten
+            sb = tool.sb_fields(img); ng = (sb['nblocks'] - sb['first_data'] + sb['bpg'] - 1) // sb['bpg']
+            if h.endswith('-M'): cmd = [tp.resize2fs, '-M', img]
+            else:
+                if ng < 2: continue
+                cmd = [tp.resize2fs, img, str(sb['first_data'] + sb['bpg'] * max(1, ng - 1 - (hi % 2)))]
+            r = vrun.run(cmd, merge=True, cpu=300); done.append('%s -> %s' % (' '.join(cmd[1:-1] if h.endswith('-M') else [cmd[-1]]) and h, r.rc)); rewrote = rewrote or r.rc == 0
+            if r.rc != 0 and tp.fsck(img, '-fn').rc != 0: return (None, fp, False, None, classes + ['skip:resize-refused-and-not-clean'])
         elif h == 'e2fsck -fyD': r = tp.fsck(img, '-fyD', cpu=120); done.append('e2fsck -fyD -> %s' % r.rc); rewrote = True
         elif h == 'debugfs writes':
             r = tp.dbg(img, ['mkdir c14d', 'write %s c14d/f' % os.path.join(env['blobs'], 'mid'), 'symlink c14d/l %s' % ('z' * 300), 'ea_set c14d user.c14 %s' % ('v' * 300), 'rm /small'], write=True); done.append('debugfs writes'); rewrote = True
